@@ -222,6 +222,9 @@ func iterAll(t *trie.Trie) (keys, vals [][]byte, err error) {
 	for it.Next() {
 		keys = append(keys, common.CopyBytes(it.Key))
 		vals = append(vals, common.CopyBytes(it.Value))
+		for i := range it.Key { // the caller owns the returned key: scribbling it must not disturb the iteration
+			it.Key[i] ^= 0xff
+		}
 	}
 	return keys, vals, it.Err
 }
@@ -313,6 +316,9 @@ type exec struct {
 	final       bool // the next root is the final one of the history
 	prevReopen  bool // the previous op was a successful reopen
 	nontrivial  bool
+	kbuf        []byte           // ONE key buffer shared by all calls made in buffer-reuse mode
+	sharedKey   func(idx int) bool // does op idx pass its key through the shared buffer?
+	sharedOps   []int
 }
 
 func (h *H) newExec(class string) *exec {
@@ -328,7 +334,8 @@ func (h *H) newExec(class string) *exec {
 func (e *exec) prefix(i int) string { return "run " + strings.Join(e.toks[:i+1], " ") }
 
 func (e *exec) replayObj(idx int, extra map[string]interface{}) map[string]interface{} {
-	rp := map[string]interface{}{"run": e.prefix(idx), "op": idx, "flush": append([]int{}, e.flushed...), "class": e.class}
+	rp := map[string]interface{}{"run": e.prefix(idx), "op": idx, "flush": append([]int{}, e.flushed...), "class": e.class,
+		"shared_key_ops": append([]int{}, e.sharedOps...)}
 	for k, v := range extra {
 		rp[k] = v
 	}
@@ -408,11 +415,39 @@ func (e *exec) step(tok string) {
 		}
 		return nil
 	}
+	// buffer-reuse mode: the key of this call is written into the ONE shared key buffer (overwriting
+	// the previous call's key in place) and the call receives that slice; the buffer is scribbled
+	// over as soon as the call has returned.  The implementation must not retain or compare against
+	// caller-owned key memory.  (Values are NOT aliased: Trie.Update documents that value bytes must
+	// not be modified while stored in the trie.)
+	shared := false
+	key := func() []byte {
+		k := arg(1)
+		if e.sharedKey != nil && e.sharedKey(idx) {
+			if e.kbuf == nil {
+				e.kbuf = make([]byte, 96)
+			}
+			if len(k) <= len(e.kbuf) {
+				copy(e.kbuf, k)
+				shared = true
+				e.sharedOps = append(e.sharedOps, idx)
+				return e.kbuf[:len(k):len(k)]
+			}
+		}
+		return k
+	}
+	defer func() {
+		if shared {
+			for i := range e.kbuf {
+				e.kbuf[i] = 0xEE
+			}
+		}
+	}()
 	ans := "?"
 	reopened := false
 	switch parts[0] {
 	case "u":
-		k, v := arg(1), arg(2)
+		k, v := key(), arg(2)
 		var err error
 		if e.guard(idx, "Trie.TryUpdate", false, func() { err = e.t.TryUpdate(k, v) }) {
 			ans = "panic"
@@ -423,7 +458,7 @@ func (e *exec) step(tok string) {
 			e.setContent(k, v)
 		}
 	case "d":
-		k := arg(1)
+		k := key()
 		var err error
 		if e.guard(idx, "Trie.TryDelete", false, func() { err = e.t.TryDelete(k) }) {
 			ans = "panic"
@@ -434,7 +469,7 @@ func (e *exec) step(tok string) {
 			e.setContent(k, nil)
 		}
 	case "g":
-		k := arg(1)
+		k := key()
 		var v []byte
 		var err error
 		if e.guard(idx, "Trie.TryGet", false, func() { v, err = e.t.TryGet(k) }) {
@@ -568,7 +603,7 @@ func (e *exec) step(tok string) {
 		}
 	case "p":
 		e.nontrivial = true
-		key := arg(1)
+		key := key()
 		var root common.Hash
 		var perr error
 		proof := aquadb.NewMemDatabase()
@@ -728,7 +763,19 @@ func dedupe(keys [][]byte) [][]byte {
 
 func genUniverse(c *vh.Ctx) universe {
 	r := c.Rng
-	switch r.Intn(4) {
+	switch r.Intn(5) {
+	case 4: // keys longer than a hash (33..40 bytes) with long shared prefixes
+		base := r.Bytes(40)
+		n := 8 + r.Intn(10)
+		keys := make([][]byte, 0, n)
+		for i := 0; i < n; i++ {
+			k := common.CopyBytes(base[:33+r.Intn(8)])
+			for j := 0; j < 1+r.Intn(2); j++ {
+				k[len(k)-1-r.Intn(3)] = byte(r.Intn(4))
+			}
+			keys = append(keys, k)
+		}
+		return universe{"long-33..40", dedupe(keys), r.Bool()}
 	case 0: // varlen keys, many of them prefixes of others
 		alpha := []byte{0x00, 0x01, 0x10, 0x11, 0xff}
 		rnd := func(n int) []byte {
@@ -842,7 +889,14 @@ func (h *H) genHistory(n int) {
 	if heavy {
 		class += "/commit-heavy"
 	}
+	reuse := r.Chance(35)
+	if reuse {
+		class += "/key-buffer-reuse"
+	}
 	e := h.newExec(class)
+	if reuse {
+		e.sharedKey = func(int) bool { return r.Chance(75) }
+	}
 	key := func(perturb bool) []byte {
 		k := u.keys[r.Intn(len(u.keys))]
 		if perturb && r.Chance(12) {
@@ -1265,81 +1319,148 @@ func (h *H) encodings() {
 var secureNames = map[byte]string{
 	'u': "SecureTrie.TryUpdate~trie_update(keccak keys)", 'h': "SecureTrie.Hash~trie_hash(keccak keys)",
 	'c': "SecureTrie.Commit~trie_commit(keccak keys)", 'g': "SecureTrie.TryGet~trie_get(keccak keys)",
+	'd': "SecureTrie.TryDelete~trie_delete(keccak keys)",
 }
 
-func (h *H) secureHistory() {
+// secureHistory generates a SecureTrie history as plain tokens (keys un-hashed); a leading '*'
+// marks a call whose key goes through the ONE shared key buffer (buffer-reuse mode).
+func (h *H) secureHistory(forceReuse bool) {
 	c := h.c
 	r := c.Rng
+	reuse := forceReuse || r.Chance(50)
+	nk := 4 + r.Intn(12)
+	keys := make([][]byte, nk)
+	for i := range keys {
+		switch r.Intn(4) {
+		case 0:
+			keys[i] = r.Bytes(32)
+		case 1:
+			keys[i] = r.Bytes(33 + r.Intn(8))
+		default:
+			keys[i] = r.Bytes(1 + r.Intn(20))
+		}
+	}
+	var plain []string
+	n := 8 + r.Intn(c.Scale(30, 120))
+	for i := 0; i <= n; i++ {
+		k := keys[r.Intn(nk)]
+		mark := ""
+		if reuse && r.Chance(75) {
+			mark = "*"
+		}
+		p := r.Intn(100)
+		if i == n {
+			p = 85
+		}
+		switch {
+		case p < 55:
+			plain = append(plain, mark+"u:"+vh.Hex(k)+":"+vh.Hex(genValue(r, false)))
+		case p < 65:
+			plain = append(plain, mark+"d:"+vh.Hex(k))
+		case p < 80:
+			plain = append(plain, mark+"g:"+vh.Hex(k))
+		case p < 92:
+			plain = append(plain, "h")
+		default:
+			plain = append(plain, "c")
+		}
+	}
+	class := "secure"
+	if reuse {
+		class = "secure/key-buffer-reuse"
+	}
+	h.runSecure(class, plain)
+}
+
+// runSecure executes a plain SecureTrie history on the implementation (with the map oracle) and
+// compares it with the model run over the keccak-hashed keys.
+func (h *H) runSecure(class string, plain []string) {
+	c := h.c
 	_, triedb, _ := newTrie()
 	var st *trie.SecureTrie
 	if p, pv := vh.CatchPanic(func() { st, _ = trie.NewSecure(common.Hash{}, triedb, 0) }); p || st == nil {
 		c.Violate("panic/NewSecure/-", fmt.Sprint("NewSecure fails: ", pv), nil)
 		return
 	}
-	nk := 4 + r.Intn(12)
-	keys := make([][]byte, nk)
-	for i := range keys {
-		keys[i] = r.Bytes(1 + r.Intn(20))
-	}
 	content := map[string][]byte{}
-	var toks, answers, plain []string
-	emit := func(tok, plainTok, ans string) {
-		toks = append(toks, tok)
-		plain = append(plain, plainTok)
-		answers = append(answers, ans)
-	}
+	var toks, answers []string
+	kbuf := make([]byte, 96)
+	done := 0
 	viol := func(sig, what string, extra map[string]interface{}) {
-		rp := map[string]interface{}{"secure_history": strings.Join(plain, " ")}
+		rp := map[string]interface{}{"secure_history": strings.Join(plain[:done+1], " ")}
 		for k, v := range extra {
 			rp[k] = v
 		}
-		c.Violate(sig+sha16(strings.Join(plain, " ")), what, rp)
+		c.Violate(sig+sha16(strings.Join(plain[:done+1], " ")), what, rp)
 	}
-	n := 8 + r.Intn(c.Scale(30, 120))
-	for i := 0; i <= n; i++ {
-		k := keys[r.Intn(nk)]
-		hk := crypto.Keccak256(k)
-		p := r.Intn(100)
-		if i == n {
-			p = 80
+	for i, pt := range plain {
+		done = i
+		shared := strings.HasPrefix(pt, "*")
+		parts := strings.Split(strings.TrimPrefix(pt, "*"), ":")
+		var k, hk, v []byte
+		if len(parts) > 1 {
+			k0 := vh.UnHex(parts[1])
+			hk = crypto.Keccak256(k0)
+			k = k0
+			if shared && len(k0) <= len(kbuf) {
+				copy(kbuf, k0) // overwrite the previous call's key in place
+				k = kbuf[:len(k0):len(k0)]
+			}
 		}
-		switch {
-		case p < 65:
-			v := genValue(r, false)
-			ans := "ok"
+		if len(parts) > 2 {
+			v = vh.UnHex(parts[2])
+		}
+		ans := ""
+		switch parts[0] {
+		case "u", "d":
 			var err error
-			if pp, pv := vh.CatchPanic(func() { err = st.TryUpdate(k, v) }); pp {
+			op := "SecureTrie.TryUpdate"
+			if parts[0] == "d" {
+				op = "SecureTrie.TryDelete"
+			}
+			if pp, pv := vh.CatchPanic(func() {
+				if parts[0] == "d" {
+					err = st.TryDelete(k)
+				} else {
+					err = st.TryUpdate(k, v)
+				}
+			}); pp {
 				ans = "panic"
-				viol("panic/SecureTrie.TryUpdate/", fmt.Sprint(pv), nil)
+				viol("panic/"+op+"/", fmt.Sprint(pv), nil)
 			} else if err != nil {
 				ans = errName(err)
-			} else if len(v) == 0 {
-				delete(content, string(hk))
 			} else {
-				content[string(hk)] = v
+				ans = "ok"
+				if len(v) == 0 {
+					delete(content, string(hk))
+				} else {
+					content[string(hk)] = v
+				}
 			}
-			emit("u:"+vh.Hex(hk)+":"+vh.Hex(v), "u:"+vh.Hex(k)+":"+vh.Hex(v), ans)
-		case p < 78:
-			var v []byte
+			if parts[0] == "d" {
+				toks = append(toks, "d:"+vh.Hex(hk))
+			} else {
+				toks = append(toks, "u:"+vh.Hex(hk)+":"+vh.Hex(v))
+			}
+		case "g":
+			var got []byte
 			var err error
-			ans := ""
-			if pp, pv := vh.CatchPanic(func() { v, err = st.TryGet(k) }); pp {
+			if pp, pv := vh.CatchPanic(func() { got, err = st.TryGet(k) }); pp {
 				ans = "panic"
 				viol("panic/SecureTrie.TryGet/", fmt.Sprint(pv), nil)
 			} else if err != nil {
 				ans = errName(err)
 			} else {
-				ans = "v:" + vh.Hex(v)
-				if !bytes.Equal(v, content[string(hk)]) {
-					viol("get-differs-from-content/", "SecureTrie.TryGet differs from the content written", map[string]interface{}{"key": vh.Hex(k), "observed": ans})
+				ans = "v:" + vh.Hex(got)
+				if !bytes.Equal(got, content[string(hk)]) {
+					viol("get-differs-from-content/", "SecureTrie.TryGet differs from the content written", map[string]interface{}{"key": parts[1], "observed": ans, "expected": "v:" + vh.Hex(content[string(hk)])})
 				}
 			}
-			emit("g:"+vh.Hex(hk), "g:"+vh.Hex(k), ans)
+			toks = append(toks, "g:"+vh.Hex(hk))
 		default:
-			commit := p >= 92
+			commit := parts[0] == "c"
 			var root common.Hash
 			var err error
-			ans := ""
 			if pp, pv := vh.CatchPanic(func() {
 				if commit {
 					root, err = st.Commit(nil)
@@ -1354,18 +1475,20 @@ func (h *H) secureHistory() {
 			} else {
 				ans = "r:" + vh.Hex(root[:])
 				if rb, ok := rebuildRoot(content); !ok || rb != root {
-					viol("root-differs-from-sorted-rebuild/", "SecureTrie root differs from a plain trie over the hashed keys", map[string]interface{}{"root": vh.Hex(root[:]), "rebuild_root": vh.Hex(rb[:])})
+					viol("root-differs-from-sorted-rebuild/", "SecureTrie root differs from a plain trie over the hashed keys", map[string]interface{}{"root": vh.Hex(root[:]), "rebuild_root": vh.Hex(rb[:]), "content": contentString(content)})
 				}
 			}
-			if commit {
-				emit("c", "c", ans)
-			} else {
-				emit("h", "h", ans)
+			toks = append(toks, parts[0])
+		}
+		if shared {
+			for j := range kbuf { // the caller's buffer is its own again as soon as the call returned
+				kbuf[j] = 0xEE
 			}
 		}
+		answers = append(answers, ans)
 	}
 	line := "run " + strings.Join(toks, " ")
-	c.Eval("secure", sha16(line)+sha16(line+"#"))
+	c.Eval(class, sha16(line)+sha16(line+"#"))
 	h.ask(line, func(m string) {
 		outs := strings.Split(m, ";")
 		if len(outs) != len(toks) {
@@ -1612,6 +1735,15 @@ func (h *H) runReplay(file string) {
 			}
 		}
 		e := h.newExec("replay/history")
+		sharedSet := map[int]bool{}
+		if sl, ok := rp["shared_key_ops"].([]interface{}); ok {
+			for _, f := range sl {
+				if x, ok := f.(float64); ok {
+					sharedSet[int(x)] = true
+				}
+			}
+		}
+		e.sharedKey = func(idx int) bool { return sharedSet[idx] }
 		e.shouldFlush = func(idx int) bool { return flush[idx] }
 		e.alterProof = func() bool { return true }
 		e.askSpec = func() bool { return true }
@@ -1620,6 +1752,10 @@ func (h *H) runReplay(file string) {
 		}
 		e.nontrivial = true
 		e.finish(opNames)
+		done = true
+	}
+	if sh := str(rp, "secure_history"); sh != "" {
+		h.runSecure("replay/secure", strings.Fields(sh))
 		done = true
 	}
 	pr := rp
@@ -1732,8 +1868,16 @@ func main() {
 	h.malformedStream()
 
 	// 6. SecureTrie / DeriveSha
-	for i := 0; i < c.Scale(4, 60); i++ {
-		h.secureHistory()
+	// directed (every seed): consecutive calls through ONE key buffer, key lengths < 32, = 32, > 32
+	for _, kl := range []int{5, 32, 40} {
+		k1, k2, k3 := bytes.Repeat([]byte{0x11}, kl), bytes.Repeat([]byte{0x22}, kl), bytes.Repeat([]byte{0x33}, kl)
+		h.runSecure("secure/key-buffer-reuse/directed", []string{
+			"*u:" + vh.Hex(k1) + ":0x0101", "*u:" + vh.Hex(k2) + ":0x0202", "*g:" + vh.Hex(k1), "*g:" + vh.Hex(k2), "h",
+			"*g:" + vh.Hex(k3), "*u:" + vh.Hex(k3) + ":0x0303", "*d:" + vh.Hex(k1), "*g:" + vh.Hex(k2), "*g:" + vh.Hex(k1), "c",
+			"g:" + vh.Hex(k3), "*u:" + vh.Hex(k2) + ":0x", "*g:" + vh.Hex(k3), "h"})
+	}
+	for i := 0; i < c.Scale(12, 120); i++ {
+		h.secureHistory(i < 3)
 	}
 	// directed list lengths around the one- and two-byte rlp(index) key boundaries, every run
 	dn := []int{0, 1, 2, 17, 126, 127, 128, 129, 130, 255, 256, 257, 1000}
